@@ -53,7 +53,7 @@ def main():
         open(hp, 'w').write(lib.render())
         opts = rng.choice([['-c', '-fnames'], ['-python', '-fnames'], ['-c', '-fnames', '-promiscuous'], ['-c', '-python', '-fnames', '-string'], ['-c', '-fptrs', '-unique-names']])
         dbp = os.path.join(wd, 'a%d.in' % i)
-        p = vlib.sh([b['interrogate'], '-oc', os.path.join(wd, 'a.cxx'), '-od', dbp, '-module', 'mod%d' % i, '-library', 'lib%d' % i] + opts + [hp], cwd=wd)
+        p = vlib.sh([b['interrogate'], '-DCPPPARSER', '-oc', os.path.join(wd, 'a.cxx'), '-od', dbp, '-module', 'mod%d' % i, '-library', 'lib%d' % i] + opts + [hp], cwd=wd)
         ck.count()
         ck.dist('real-db')
         if p.returncode != 0:
